@@ -364,9 +364,9 @@ def _run_matrix(case):
             # attribute of the error names the offender
             if oc.startswith("reject:") and ob["exc"] is not None:
                 e = ob["exc"]
-                if ob["cls"] == "MissingParameters" and (pname not in set(e.parameters) or e.command != cmd):
+                if ob["cls"] == "MissingParameters" and (pname not in set(e.parameters) or e.command not in (cmd, "T")):  # the command may be named by its class or by its result name
                     viols.append(V("C12:%s:error-attribute:MissingParameters" % cmd, "%s: MissingParameters names %r of %r" % (what, e.parameters, e.command), **tag))
-                if ob["cls"] == "NoSuchParameter" and (e.parameter != "BogusParameter" or e.command != cmd):
+                if ob["cls"] == "NoSuchParameter" and (e.parameter != "BogusParameter" or e.command not in (cmd, "T")):
                     viols.append(V("C12:%s:error-attribute:NoSuchParameter" % cmd, "%s: NoSuchParameter names %r of %r" % (what, e.parameter, e.command), **tag))
                 if ob["cls"] == "ResultDoesNotExist" and e.result != _raw(rk)[1]:
                     viols.append(V("C12:%s:error-attribute:ResultDoesNotExist" % cmd, "%s: ResultDoesNotExist names %r" % (what, e.result), **tag))
@@ -626,9 +626,9 @@ def _run_faults(case):
                     bad = ("name", e.name, name)
                 if ob["cls"] == "DuplicateResult" and e.result != res:
                     bad = ("result", e.result, res)
-                if ob["cls"] == "MissingParameters" and e.command != name:
+                if ob["cls"] == "MissingParameters" and e.command not in (name, res):
                     bad = ("command", e.command, name)
-                if ob["cls"] == "NoSuchParameter" and (e.command != name or not (e.parameter.startswith("Bogus") or e.parameter == "Extra")):
+                if ob["cls"] == "NoSuchParameter" and (e.command not in (name, res) or not (e.parameter.startswith("Bogus") or e.parameter == "Extra")):
                     bad = ("parameter", (e.command, e.parameter), name)
                 if ob["cls"] == "ResultDoesNotExist" and e.result not in ("Dangling", "notalist"):
                     bad = ("result", e.result, "Dangling")
